@@ -22,7 +22,7 @@ KNOWN_FINDINGS = {'SELF.scan.alloc_checked.mod25519.c': 'F-ALLOC-1: src/mod25519
 
 MODULES = ['contracts.c.pkcs1_decode', 'contracts.c.raw_ctr', 'contracts.c.chacha20', 'contracts.c.raw_ocb', 'contracts.c.raw_cbc',
            'contracts.c.pbkdf2_sha224', 'contracts.c.pbkdf2_sha256', 'contracts.c.pbkdf2_sha384', 'contracts.c.pbkdf2_sha512',
-           'contracts.c.pbkdf2_sha1', 'contracts.c.pbkdf2_md5']
+           'contracts.c.pbkdf2_sha1', 'contracts.c.pbkdf2_md5', 'contracts.c.ec_ws_p256', 'contracts.c.ec_ws_p384', 'contracts.c.ec_ws_p521']
 
 # (name, file, old text, new text, contract module, functions, configs or None, kind of the obligation expected to fail or None)
 MUTANTS = [
@@ -91,6 +91,10 @@ MUTANTS = [
      '        for (j=0; j<digest_size; j++) {\n            result[j] ^= last_hmac[j];\n        }',
      '        for (j=0; j<digest_size/sizeof(uint64_t); j++) {\n            uint64_t acc, u;\n            memcpy(&acc, result + j*sizeof(uint64_t), sizeof acc);\n            memcpy(&u, last_hmac + j*sizeof(uint64_t), sizeof u);\n            acc ^= u;\n            memcpy(result + j*sizeof(uint64_t), &acc, sizeof acc);\n        }',
      'contracts.c.pbkdf2_sha224', ['SHA224_pbkdf2_hmac_assist'], ['ds28'], None),
+    ('ec_scalar_g_p256: table guard moved before the window count and computed with floor (seeded C17)', 'ec_ws.c',
+     [('    bw = init_bit_window_rl(p256_window_size, exp, exp_size);\n\n    /** The tables only cover scalars up to the size of the order **/\n    if (bw.nr_windows > p256_n_tables)\n        return ERR_VALUE;\n',
+       '\n    /** The tables only cover scalars up to the size of the order **/\n    if ((exp_size*8)/p256_window_size > p256_n_tables)\n        return ERR_VALUE;\n\n    bw = init_bit_window_rl(p256_window_size, exp, exp_size);\n')],
+     None, 'contracts.c.ec_ws_p256', ['ec_scalar_g_p256'], None, 'in_bounds'),
     ('MD4: writable static buffer re-introduced (finding D12)', 'MD4.c',
      '    static const uint8_t padding[64] = {', '    static uint8_t s_len[8];\n    static const uint8_t padding[64] = {',
      'scan:static_const', None, None, 'scan'),
@@ -119,6 +123,9 @@ BENIGN = [
      [('        memcpy(iv, in, block_len);\n        memcpy(out, pt, block_len);\n\n        data_len -= block_len;\n        in += block_len;\n        out += block_len;',
        '        memcpy(iv, in, block_len);\n        memcpy(out, pt, block_len);\n\n        out += block_len;\n        in += block_len;\n        data_len -= block_len;')],
      'contracts.c.raw_cbc', ['CBC_decrypt'], ['bl16.disjoint']),
+    ('ec_scalar_g_p384: guard written as !(nr_windows <= n_tables)', 'ec_ws.c',
+     [('    if (bw.nr_windows > p384_n_tables)\n        return ERR_VALUE;', '    if (!(bw.nr_windows <= p384_n_tables))\n        return ERR_VALUE;')],
+     'contracts.c.ec_ws_p384', ['ec_scalar_g_p384'], None),
     ('chacha20_seek: checks reordered (offset before nonce size)', 'chacha20.c',
      [('    if ((state->nonceSize != 8) && (state->nonceSize != 12))\n        return ERR_NONCE_SIZE;\n\n    if (offset >= sizeof state->keyStream)\n        return ERR_MAX_OFFSET;\n\n    if (state->nonceSize == 8) {',
        '    if ((state->nonceSize != 8) && (state->nonceSize != 12))\n        return ERR_NONCE_SIZE;\n\n    if (!(offset < sizeof state->keyStream))\n        return ERR_MAX_OFFSET;\n\n    if (state->nonceSize == 8) {')],
